@@ -47,11 +47,11 @@ theorem mem_keys_iff {t : Table} (n : String) : n ∈ t.keys ↔ (t.get? n).isSo
 
 /-- the entry of `conf.FieldsFromStruct(t)` for `name`, for either variant of the code, without any
 iteration order -/
-def fieldsAt (d : Defects) (t : Ty) (name : String) : Option Tag :=
+def fieldsAt (d : NDefects) (t : Ty) (name : String) : Option Tag :=
   if d.declOrderMerge then rawAt d (t.depth + 1) t name
   else if (rawAt d (t.depth + 1) t name).isSome then resolvedTag d t.deref name else none
 
-theorem fieldsFromStruct_get? (d : Defects) (σ : Table → Table) (hσ : IsOrder σ) (t : Ty) (name : String) :
+theorem fieldsFromStruct_get? (d : NDefects) (σ : Table → Table) (hσ : IsOrder σ) (t : Ty) (name : String) :
     (fieldsFromStruct d σ t).get? name = fieldsAt d t name := by
   unfold fieldsFromStruct fieldsAt
   by_cases hd : d.declOrderMerge = true
@@ -81,13 +81,13 @@ structure StructEnv (e : Env) (t dd : Ty) : Prop where
   hkind : dd.kind = RKind.struct
   hwf : EmbWF dd
 
-theorem StructEnv.table {e : Env} {t dd : Ty} (h : StructEnv e t dd) (d : Defects) (σ : Table → Table) :
+theorem StructEnv.table {e : Env} {t dd : Ty} (h : StructEnv e t dd) (d : NDefects) (σ : Table → Table) :
     createTypesTable d σ e = some (addMethods t (fieldsFromStruct d σ dd)) := by
   unfold createTypesTable
   rw [h.hty]
   simp only [← h.hdd, h.hkind]
 
-theorem StructEnv.fetchBase {e : Env} {t dd : Ty} (h : StructEnv e t dd) (d : Defects) :
+theorem StructEnv.fetchBase {e : Env} {t dd : Ty} (h : StructEnv e t dd) (d : NDefects) :
     t.fetchBase d = dd := by
   have hk := h.hkind
   have hdd := h.hdd
@@ -129,7 +129,7 @@ theorem StructEnv.not_map {e : Env} {t dd : Ty} (h : StructEnv e t dd) :
     simp [Ty.derefOnce, Ty.core, Ty.kind] at hk
 
 /-- run time, struct environment: `fetch(env, name)` is `reflect`'s `FieldByName` + `CanInterface` -/
-theorem StructEnv.fetchEnv {e : Env} {t dd : Ty} (h : StructEnv e t dd) (d : Defects) (n : String) :
+theorem StructEnv.fetchEnv {e : Env} {t dd : Ty} (h : StructEnv e t dd) (d : NDefects) (n : String) :
     fetchEnv d e n =
       match reflField dd n with
       | .found f => if f.exported then some (some f.ty) else none
@@ -215,14 +215,14 @@ theorem methodByName_eq (t : Ty) (n : String) :
     methodByName t n = ((methodSet t).find? (fun e => e.1 = n)).map (·.2) := rfl
 
 /-- the entry a struct environment's table holds for a name -/
-theorem StructEnv.entry {e : Env} {t dd : Ty} (h : StructEnv e t dd) (d : Defects) (σ : Table → Table)
+theorem StructEnv.entry {e : Env} {t dd : Ty} (h : StructEnv e t dd) (d : NDefects) (σ : Table → Table)
     (hσ : IsOrder σ) {tbl : Table} (ht : createTypesTable d σ e = some tbl) (n : String) :
     tbl.get? n = methodsAt (methodSet t) n (fieldsAt d dd n) := by
   rw [h.table] at ht
   cases ht
   rw [addMethods_get?, fieldsFromStruct_get? d σ hσ]
 
-theorem identType_ok {d : Defects} {tbl : Table} {n : String} {τ : Option Ty}
+theorem identType_ok {d : NDefects} {tbl : Table} {n : String} {τ : Option Ty}
     (h : identType d tbl n = .ok τ) :
     ∃ g, tbl.get? n = some g ∧ g.ambiguous = false ∧ (g.method && !d.methodAsValue) = false ∧ g.ty = τ := by
   unfold identType at h
@@ -250,7 +250,7 @@ theorem resolvedTag_repaired (t : Ty) (n : String) :
       | .ambiguous => some { ambiguous := true }
       | .notFound => none := by
   unfold resolvedTag
-  cases reflField t n <;> simp [Defects.asIs]
+  cases reflField t n <;> simp [NDefects.asIs]
 
 theorem fieldsAt_repaired_some {dd : Ty} (hd : dd.deref = dd) {n : String} {g : Tag}
     (h : fieldsAt .asIs dd n = some g) (ha : g.ambiguous = false) :
@@ -270,7 +270,7 @@ theorem fieldsAt_repaired_some {dd : Ty} (hd : dd.deref = dd) {n : String} {g : 
   · cases h
 
 /-- a struct environment's table holds a callable entry for every method of the method set -/
-theorem method_entry {e : Env} {t dd : Ty} (h : StructEnv e t dd) (d : Defects) (σ : Table → Table)
+theorem method_entry {e : Env} {t dd : Ty} (h : StructEnv e t dd) (d : NDefects) (σ : Table → Table)
     (hσ : IsOrder σ) {tbl : Table} (ht : createTypesTable d σ e = some tbl)
     (n : String) (hm : (methodByName t n).isSome) :
     ∃ g, tbl.get? n = some g ∧ g.method = true ∧ g.ambiguous = false := by
@@ -310,14 +310,14 @@ theorem fieldType_repaired_succ (k : Nat) (t : Ty) (n : String) :
         | _ => none
       | _ => none := by
   unfold fieldType
-  simp only [Defects.asIs, Bool.false_eq_true, if_false, Bool.false_or]
+  simp only [NDefects.asIs, Bool.false_eq_true, if_false, Bool.false_or]
   cases t.deref.kind <;> rfl
 
 /-- accepted at top level: as an identifier, or (a method of the environment) as a function name -/
-def acceptedTop (d : Defects) (tbl : Table) (n : String) : Prop :=
+def acceptedTop (d : NDefects) (tbl : Table) (n : String) : Prop :=
   (∃ τ, identType d tbl n = .ok τ) ∨ (∃ g, tbl.get? n = some g ∧ g.method = true ∧ g.ambiguous = false)
 
-theorem acceptedTop_iff (d : Defects) (tbl : Table) (n : String) :
+theorem acceptedTop_iff (d : NDefects) (tbl : Table) (n : String) :
     acceptedTop d tbl n ↔ ∃ g, tbl.get? n = some g ∧ g.ambiguous = false := by
   unfold acceptedTop identType
   cases hg : tbl.get? n with
@@ -345,7 +345,7 @@ theorem nodupKeys_filterMap (F : String → Option Tag) :
   exact h.sublist this
 
 /-- the tables the library builds are Go maps: their keys are unique -/
-theorem createTypesTable_nodup (d : Defects) (σ : Table → Table) (hσ : IsOrder σ) (e : Env) (tbl : Table)
+theorem createTypesTable_nodup (d : NDefects) (σ : Table → Table) (hσ : IsOrder σ) (e : Env) (tbl : Table)
     (ht : createTypesTable d σ e = some tbl) : NodupKeys tbl := by
   have hadd : ∀ (t : Ty) (b : Table), NodupKeys b → NodupKeys (addMethods t b) := by
     intro t b hb
